@@ -396,6 +396,28 @@ func c04Stdlib(c *Ctx) {
 					}
 				}
 			}
+			// one argument dynamically typed or unknown (the call may short-circuit there) and a
+			// mark on another argument, before or after it
+			for i := range base {
+				for j := range base {
+					if i == j {
+						continue
+					}
+					for _, blocker := range []cty.Value{cty.DynamicVal, cty.UnknownVal(base[i].Type()), cty.NullVal(base[i].Type())} {
+						for _, mv := range []cty.Value{base[j].Mark(markM1), cty.UnknownVal(base[j].Type()).Mark(markM2)} {
+							args := append([]cty.Value(nil), base...)
+							args[i], args[j] = blocker, mv
+							promised := map[interface{}]bool{}
+							if p := fn.paramAt(j); p != nil && !p.AllowMarked {
+								promised = marksDeep(mv)
+							}
+							u.DistinctN(1)
+							c04Compare(u, fn.Name, func() string { return fn.Name + "(" + argsStr(args) + ")" }, shapesStr(args), args, promised,
+								func(in []cty.Value) (cty.Value, error) { return fn.F.Call(in) })
+						}
+					}
+				}
+			}
 			// marks on two arguments at once
 			if len(base) >= 2 {
 				args := append([]cty.Value(nil), base...)
